@@ -77,6 +77,13 @@ def run(res, args):
                'enumeration_note': 'the quantifier over object states is decided by z3 per emitted function; the quantifier over programs is bounded enumeration + seed (not a proof about the compiler)'})
     # (a) folding kernels
     kani.check_property(res, 'c01', CE.FRAG, CE.FOLD, into='kani_constant_folding')
+    from . import mir_obligations as O
+    fns, consts = O.load()
+
+    def replay(ob, d):
+        rep, info = O.replay_ceval(d)
+        return rep, info, {'site': 'eval_binary_arith_expression dispatch', 'probe': info['failed_probes'][0]['expression'] if info['failed_probes'] else None}
+    O.merge(res, O.ceval_divrem(fns, consts), res.coverage.setdefault('mir_fold_dispatch', {}), replay, 'ceval')
     res.assumptions += [
         'reference semantics = vlib/tv/ref.py written from docs/language.md (C-like typing, integer division, short-circuit, fall-through, block scoping, completion value of a trailing expression statement)',
         'primitives (what + means on two 32-bit ints and when it is undefined) are shared by both encodings; which primitive is applied to which operand, conversions and control flow are encoded independently',
